@@ -593,8 +593,13 @@ def loop_programs(rng, n, nested=True, side=False, force=None):
         elif nested and i % 4 == 3:
             # nested loop: the inner loop's final state is mapped back into the outer body stream
             ibody, ibout = _body(rng, "replay", "L_I_", allow_amplify=False)
-            inner = {"id": "L_I", "op": "replay", "rounds": rng.choice([1, 2, 3]), "init": rng.choice([0, 2]),
-                     "lfold": "sum", "gfold": "sum", "cond": "always", "body": ibody, "out": ibout, "in": [bout]}
+            # the inner loop ends by its bound OR by its condition (small thresholds: it stops after a
+            # different number of rounds in different outer rounds, so a run must not inherit anything -
+            # state, round counter - from the previous run of the same loop)
+            inner = {"id": "L_I", "op": "replay", "rounds": rng.choice([1, 2, 3, 4, 5]), "init": rng.choice([0, 2]),
+                     "lfold": "sum", "gfold": "sum",
+                     "cond": rng.choice(["always", "lt10", "lt30", "lt100", "lt30", "lt1000"]),
+                     "body": ibody, "out": ibout, "in": [bout]}
             loop["body"] = body + [inner, {"id": "L_x", "op": "map", "f": "id", "in": ["L_I.state"]}]
             loop["out"] = "L_x"
             loop["op"] = "replay"
